@@ -1013,7 +1013,11 @@ Section WS.
     | OUpdateCache s => let '(w1, r) := update_cache w s in
                         (w1, q, match r with inl n => VOptNum n | inr e => VExn (exn_of e) end)
     | OCheck s => (w, q, if check_ok (w_fs w) (s_root (getS w s)) then VUnit else VExn EJobsCorrupted)
-    | OSnap => (w, q, snap w)
+    | OSnap =>
+        (* the fresh Project's handles construct a _StatePointDict for every listed job: their file names
+           enter the (process-wide) lock registry *)
+        (fold_left (fun w' r => fold_left (fun w'' i => lock_add w'' (r ++ [WS; i; SPF])) (job_dirs (w_fs w) (r ++ [WS])) w')
+                   (roots w) w, q, snap w)
     end.
 
   (* ------------------------------------------------------------------ comparing observations *)
